@@ -18,7 +18,7 @@ import numpy as np
 from affine import Affine
 from dask.base import tokenize
 
-from vf import core, e1, statespace
+from vf import core, e1, introspect, statespace
 from vf.core import R
 
 PROPERTY = "C19"
@@ -521,9 +521,14 @@ def _cache_ids():
     return out
 
 
+_PRISTINE = introspect.ModuleState(crsmod)  # taken when this module is imported, before any case has run
+
+
 def _clear_caches():
-    for c in _cache_containers().values():
-        c.clear()
+    """Put the module-level state of odc/geo/crs.py back to what it was when the harness started (for the caches of the
+    current tree: empty)."""
+    _cache_containers()  # raises if there is nothing to reset
+    _PRISTINE.restore()
 
 
 def observe(c: CRS):
@@ -798,6 +803,163 @@ def reset_caches():
     _OBJ.clear()
 
 
+# -- pickles made in ANOTHER interpreter (another string-hash seed), as dask workers exchange them ----------------------
+_HELPER = r"""
+import sys, pickle, base64
+sys.path[:0] = %r
+from checks import c19
+t = %r
+out = []
+for i, (label, ident, build) in enumerate(c19.fam()[t]):
+    row = [label]
+    for how in ("fresh", "after-hash", "after-hash-token-str"):
+        o = build()
+        try:
+            if how != "fresh":
+                try:
+                    hash(o)
+                except TypeError:
+                    pass
+            if how == "after-hash-token-str":
+                c19.tokenize(o); str(o); repr(o)
+            row.append(base64.b64encode(pickle.dumps(o)).decode())
+        except Exception as e:
+            row.append("ERR:" + type(e).__name__ + ":" + str(e)[:100])
+    out.append(row)
+import json
+print("C19HELPER" + json.dumps(out))
+"""
+
+
+def gen_xproc():
+    for t in fam():
+        for seed in ("1", "4242"):
+            yield (t, seed)
+
+
+def run_xproc(case):
+    """Every family member is built, (optionally) hashed / tokenised / printed and pickled by an interpreter started with
+    another PYTHONHASHSEED; here it is unpickled and compared with the locally built value: equal, same dask token, and -
+    when both are hashable - the same hash (a hash memoised into the pickle would differ)."""
+    import base64  # pylint: disable=import-outside-toplevel
+    import json  # pylint: disable=import-outside-toplevel
+    import os  # pylint: disable=import-outside-toplevel
+    import subprocess  # pylint: disable=import-outside-toplevel
+    import sys  # pylint: disable=import-outside-toplevel
+
+    t, seed = case
+    r = R(outcome=f"xproc:{t}")
+    env = dict(os.environ, PYTHONHASHSEED=seed)
+    code = _HELPER % ([p for p in sys.path if p], t)
+    pr = subprocess.run([sys.executable, "-B", "-c", code], capture_output=True, text=True, env=env, timeout=600)
+    line = [l for l in pr.stdout.splitlines() if l.startswith("C19HELPER")]
+    if pr.returncode != 0 or not line:
+        raise e1.HarnessError(f"helper interpreter failed for {case}: rc={pr.returncode} {pr.stderr[-800:]}")
+    rows = json.loads(line[0][len("C19HELPER"):])
+    members = fam()[t]
+    for (label, ident, build), row in zip(members, rows):
+        assert row[0] == label
+        local = build()
+        hl, tl = _hash(local), tokenize(local)
+        for how, blob in zip(("fresh", "after-hash", "after-hash-token-str"), row[1:]):
+            what = f"{t}: {label} pickled in another interpreter ({how}, PYTHONHASHSEED={seed})"
+            if blob.startswith("ERR:"):
+                r.fail(f"xproc:pickle-raised:{t}:{label}", f"{what}: {blob}")
+                continue
+            try:
+                c = pickle.loads(base64.b64decode(blob))
+            except Exception as e:  # pylint: disable=broad-except
+                r.fail(f"xproc:unpickle-raised:{t}:{label}", f"{what}: {type(e).__name__}: {e}")
+                continue
+            if not (_eq(c, local) and _eq(local, c)):
+                r.fail(f"xproc:clone-unequal:{t}:{label}", f"{what}: not equal to the same value built here")
+                continue
+            hc = _hash(c)
+            if hl is not None and hc is not None and hc != hl:
+                r.fail(f"xproc:hash:equal-objects-differ:{t}:{how}", f"{what}: equal to the value built here but hash differs ({hc} vs {hl})")
+            if tokenize(c) != tl:
+                r.fail(f"xproc:token:{t}:{how}", f"{what}: dask token differs from the value built here")
+    return r
+
+
+# -- E3a: two threads asking for transformers at the same time -----------------------------------------------------------
+TR_CODES = (4326, 3857, 32633)
+TR_PAIRS = [(a, b) for a in TR_CODES for b in TR_CODES if a != b]
+
+
+def gen_tr_sched(tier):
+    bound = 2 if tier == "quick" else 3
+    prev = [None, (4326, 3857), (32633, 3857)]  # a transformer request made before the race (the cache is not empty)
+
+    def g():
+        for pv in prev:
+            for p1 in TR_PAIRS[:3] if tier == "quick" else TR_PAIRS:
+                for p2 in TR_PAIRS:
+                    yield (pv, p1, p2, bound)
+
+    return g
+
+
+def run_tr_sched(case):
+    """Two threads each request a transformer (same pair, reversed pair, overlapping or disjoint pairs), possibly after an
+    earlier request; every line of odc/geo/crs.py is a scheduling point; all schedules within the preemption bound. Each
+    thread's transformer must map the probe points exactly like a fresh pyproj transformer for ITS pair."""
+    from vf import sched  # pylint: disable=import-outside-toplevel
+
+    pv, p1, p2, bound = case
+    fails = {}
+
+    def make(prefix):
+        s = sched.Sched(prefix, [crsmod.__file__])
+        _clear_caches()
+        objs = {c: CRS(f"EPSG:{c}") for c in TR_CODES}
+        for o in objs.values():
+            _ = o.epsg
+        if pv is not None:
+            objs[pv[0]].transformer_to_crs(objs[pv[1]])
+        res = {}
+
+        def body(k, pair):
+            def run():
+                f = objs[pair[0]].transformer_to_crs(objs[pair[1]])
+                x, y = _PROBE if pair[0] == 4326 else _PROBE_M
+                res[k] = f(x.copy(), y.copy())
+            return run
+
+        s.spawn(body(0, p1), "t0")
+        s.spawn(body(1, p2), "t1")
+        s.run()
+        s.res = res
+        return s
+
+    def check(x):
+        for name, err in x.errors():
+            if not core.in_repo_tb(err):
+                raise err
+            fails.setdefault(f"transformer:threads:raised:{type(err).__name__}@{core.raise_site(err)}",
+                             f"{case}: {name}: {type(err).__name__}: {err}; schedule {x.choices}")
+        if x.deadlock:
+            fails.setdefault("transformer:threads:deadlock", f"{case}: schedule {x.choices}")
+        for k, pair in ((0, p1), (1, p2)):
+            got = x.res.get(k)
+            want = fresh_transform(*pair)
+            if got is None:
+                continue
+            if not (np.array_equal(got[0], want[0], equal_nan=True) and np.array_equal(got[1], want[1], equal_nan=True)):
+                rel = "same-pair" if p1 == p2 else "reversed-pair" if p1 == p2[::-1] else "other-pair"
+                fails.setdefault(f"transformer:threads:wrong-pair:{rel}:{'after-earlier-request' if pv else 'empty-cache'}",
+                                 f"{case}: thread {k} asked for {pair[0]}->{pair[1]} and its transformer maps the probe to {got}, "
+                                 f"fresh pyproj gives {want}; schedule choices {list(x.choices)}")
+
+    st = sched.explore(make, check, bound)
+    _clear_caches()
+    r = R(outcome=f"tr-sched:{'same' if p1 == p2 else 'rev' if p1 == p2[::-1] else 'other'}:{'warm' if pv else 'cold'}")
+    r.counts = dict(schedules=st.schedules, transitions=st.points, states=st.distinct_traces, sched_states=st.distinct_traces)
+    for k, m in fails.items():
+        r.fail(k, m)
+    return r
+
+
 def slices(tier):
     return [
         e1.Slice("pairs", gen_pairs, run_pair, "all ordered pairs per type family", setup=reset_caches),
@@ -806,6 +968,12 @@ def slices(tier):
                  "BFS over CRS cache histories, one search per initial history (single construction, or two "
                  "constructions + transformer request as non-initial start state)",
                  shards=len(history_cases(tier)), setup=reset_caches),
+        e1.Slice("pickles-from-another-interpreter", gen_xproc, run_xproc,
+                 "every family member pickled (fresh / after hash / after hash+token+str) by an interpreter with another hash seed",
+                 shards=64, setup=reset_caches),
+        e1.Slice("transformer-threads", gen_tr_sched(tier), run_tr_sched,
+                 "E3a: two threads request transformers (all pair relations, cold and warm cache), every line of crs.py a "
+                 "scheduling point, all schedules within the preemption bound", shards=64, setup=reset_caches),
         e1.Slice("crs-cache-pressure", gen_pressure(tier), run_pressure,
                  "histories [new A, new B, transformer, K x new distinct CRS, drop, gc] for every pressure level K in the menu",
                  shards=36, setup=reset_caches),
